@@ -71,7 +71,7 @@ var registry = []prop{
 		ID: "C15", Pkg: "props/c15", Level: "exploration",
 		Quick:  tierCfg{Shards: 1, Scale: 1, TimeoutS: 300},
 		Thor:   tierCfg{Shards: 16, Scale: 10, TimeoutS: 1500},
-		Assume: []string{"update indices are >= 0", "the geometry clause is judged only for fully annotated ways (every node and update has version >= 1 and a location other than (0,0)) with all indices in range", "composition is judged only when each child's updates appear in time order in the stored list"},
+		Assume: []string{"update indices are >= 0", "the geometry clause is judged only for fully annotated ways (every node and update has version >= 1 and a location other than (0,0)) with all indices in range", "composition is judged only when each child's updates appear in time order in the stored list", "the copy of the geometry clause is a struct copy of the way with a cloned node list; its update list shares memory with the original, and applying the updates on the copy must leave the original unchanged"},
 	},
 	{
 		ID: "C18", Pkg: "props/c18", Level: "exploration",
